@@ -23,19 +23,28 @@ def what_of(e):
             f"exact_required={e.get('exact')} exact={(e.get('b2') or {}).get('d') == e.get('dg')}")
 
 
+def conforming(line):
+    """a round trip in which every equation holds, of a format none of whose listed deviations could absorb a change"""
+    e = json.loads(line)
+    ok = lambda k: isinstance(e.get(k), dict) and e[k].get("o") == "ok"
+    return (e.get("fmt") in ("install", "download", "size", "bpsv", "keyring_config", "zbsdiff", "patch_index", "blte", "cdn_config")
+            and ok("b2") and ok("p2") and ok("b3") and e["b3"]["d"] == e["b2"]["d"] and e.get("l1") == e.get("l2")
+            and (not e.get("exact") or e["b2"]["d"] == e.get("dg")))
+
+
 def selftest(ctx, trace, cfg):
     lines = pc.sample_lines(trace)
 
     def corrupt(ls):
         # a rebuilt digest is changed: the fixed point is lost
-        i = next(i for i, l in enumerate(ls) if '"op":"rt"' in l and '"b3":{"d"' in l and '"l2":"' in l)
+        i = next(i for i, l in enumerate(ls) if '"op":"rt"' in l and '"b3":{"d"' in l and '"l2":"' in l and conforming(l))
         e = json.loads(ls[i])
         e["b3"]["d"] = "0" * 32
         ls[i] = json.dumps(e, separators=(",", ":"))
         return ls, i + 1
 
     def logical(ls):
-        i = next(i for i, l in enumerate(ls) if '"op":"rt"' in l and '"l2":"' in l and '"b3":{"d"' in l)
+        i = next(i for i, l in enumerate(ls) if '"op":"rt"' in l and '"l2":"' in l and '"b3":{"d"' in l and conforming(l))
         e = json.loads(ls[i])
         e["l2"] = "f" * 32
         ls[i] = json.dumps(e, separators=(",", ":"))
@@ -66,7 +75,8 @@ def selftest(ctx, trace, cfg):
                     break
     res["corrupt_read_back_entry_flagged"] = pc.selftest_lines(ctx, MODULE_T, cfg, bl, bprog, "d")
     ctx.cov["binding_selftest"] = res
-    if not all(res.values()):
+    # a run that already reports violations keeps its verdict (exit 1); the self-test result is in the evidence
+    if not all(res.values()) and not ctx.violations:
         raise lib.ToolError(f"binding self-test failed: {res}")
 
 
@@ -81,7 +91,12 @@ def run(ctx):
     d = run_.execute()
     v, cfg = pc.judge(ctx, MODULE_T, run_.trace, kd, f"fixtures + builder programs + mutations seed={ctx.seed}", boundary=pc.rt_boundary)
     pc.classify(ctx, v, run_, "drv_parse", what_of, group_of=lambda e: (e.get("fmt"), e.get("op"), what_of(e).split(": ", 1)[-1][:160] if e.get("op") == "rt" else e.get("ver")))
-    selftest(ctx, run_.trace, cfg)
+    try:
+        selftest(ctx, run_.trace, cfg)
+    except StopIteration:
+        ctx.cov["binding_selftest"] = {"no_victim_event_in_sample": True}
+        if not ctx.violations:
+            raise lib.ToolError("binding self-test found no event to corrupt in the sample")
     preds = [lambda l: '"op":"bprog"' in l and '"got":[{' in l, lambda l: '"op":"rt"' in l and '"src":"mut"' in l, lambda l: '"op":"rt"' in l and '"exact":true' in l]
     for want, e in zip(("builder program", "accepted mutated input", "real CDN fixture"), pc.first_matching(run_.trace, preds)):
         if e:
